@@ -187,6 +187,19 @@ pub fn build(tier: Tier) -> Check<'static> {
         }));
     }
     {
+        let sp = crate::engines::kwprogs::programs(0, tier.pick(3, 4));
+        c.parts.push(Part::new("keyword-regions", sp.len(), "every sequence of <= 3 (quick) / 4 (thorough) segments from {`begin_keywords x3 versions, `end_keywords, 4 probe modules}, unclosed and unbalanced regions included", move |i, acc| {
+            let src = crate::engines::kwprogs::render(&sp.get(i));
+            one(acc, &src, false, false, "keyword-region program");
+        }));
+    }
+    {
+        let sp = crate::props::c02::sentence_texts();
+        c.parts.push(Part::new("grammar-sentences", sp.len(), "every sentence of the C02 reference-grammar enumeration, plus junk suffixes", move |i, acc| {
+            one(acc, &sp.get(i), false, true, "reference grammar sentence");
+        }));
+    }
+    {
         let sp = crate::props::c01::lib_sentences(tier.pick(2, 3));
         c.parts.push(Part::new("lib-sentences", sp.len(), "library-map sentences plus junk", move |i, acc| {
             one(acc, &sp.get(i), true, true, "library sentence");
